@@ -450,6 +450,8 @@ def matrix2(par, ph, second, ch, gh, T='1/4', timed='P1'):
                timeouts={timed: T}, T=T, features=dict(par=par, ph=ph, second=second, ch=ch, gh=gh, timed=timed), m2=True)
     # observe the child shortly after the (earliest possible) time-out instant
     cfg['actors']['poll'] = [['poll_if', str(Fraction(T) + Fraction(1, 100)), 'C1'], ['poll_if', str(Fraction(T) + Fraction(1, 20)), 'C1']]
+    # an independent task awaits the child from outside any handler
+    cfg['actors']['wc'] = [['sleep', str(Fraction(T) / 2)], ['await_if', 'C1']]
     used = json_dumps(handlers)
     for v in list(reals):
         if f'"{v}"' not in used:
